@@ -22,6 +22,9 @@ def sh(cmd, cwd=None, timeout=3000):
 def main():
     prop, outdir, n = sys.argv[1], sys.argv[2], sys.argv[3]
     checks = [prop]
+    tag = ""
+    if "--tag" in sys.argv:
+        tag = sys.argv[sys.argv.index("--tag") + 1] + "-"
     if "--checks" in sys.argv:
         checks = sys.argv[sys.argv.index("--checks") + 1].split(",")
     patch = os.path.join(outdir, "patch%s.diff" % n)
@@ -37,7 +40,7 @@ def main():
     runpat = m.group(1) if m else "Seed"
     use126 = "synctest" in open(demo).read() or "go1.26" in first
     go = "go1.26.8" if use126 else "go"
-    wt = "/tmp/seedchk-%s-%s" % (prop, n)
+    wt = "/tmp/seedchk-%s-%s%s" % (prop, tag, n)
     sh(["git", "-C", REPO, "worktree", "remove", "--force", wt])
     rc, out = sh(["git", "-C", REPO, "worktree", "add", "-q", "--detach", wt, "HEAD"])
     assert rc == 0, out
@@ -84,7 +87,7 @@ def main():
             sh(["git", "-C", REPO, "clean", "-fdq"])
     meta["checks"] = results
     meta["detected_by"] = [c for c, r in results.items() if r["exit"] != 0 and r["violations"]]
-    d = os.path.join(VERIF, "seeded", "%s-%s" % (prop, n))
+    d = os.path.join(VERIF, "seeded", "%s-%s%s" % (prop, tag, n))
     os.makedirs(d, exist_ok=True)
     shutil.copyfile(patch, os.path.join(d, "patch.diff"))
     shutil.copyfile(demo, os.path.join(d, "demo_test.go"))
